@@ -1,2 +1,78 @@
-/-! Line-protocol driver stub for the rules cluster (to be written by the cluster owner). -/
-def main : IO Unit := IO.println "bad-op"
+import J5V.Rules.Wire
+/-! Line-protocol driver of the rules cluster (core only). Protocol: /verif/harness/PROTOCOL-rules.md
+
+    rules <spec tokens> | <value> <value> ...     ->  <emitted constraint> pres=<0|1> | <verdicts>   |  err
+    schema <objdesc> ;; <spec> ;; <spec> ...       ->  obj name=.. desc=.. ;; <flat> ;; <flat> ...     |  err | reader-error | reader-panic
+-/
+open J5V.Go J5V.Rules J5V.Rules.Wire
+
+def verdictChar : Verdict → Char
+  | .accept => 'A'
+  | .reject => 'R'
+  | .error => 'E'
+
+def definedOf (p : Property) : List Int :=
+  match p.schema.item with
+  | .enum decl _ _ => decl.defined
+  | _ => []
+
+def stepRules (body : String) : String :=
+  match body.splitOn " | " with
+  | [specS, valsS] =>
+    match decodeSpec 2 (specS.splitOn " " |>.filter (· ≠ "")) with
+    | none => "bad-op"
+    | some p =>
+      if (patternsOf p).any (fun pat => (parseSmallRe pat).isNone) then "skip"
+      else
+        match compileRules p with
+        | .err _ => "err"
+        | .panic _ => "panic"
+        | .ok c =>
+          let toks := valsS.splitOn " " |>.filter (· ≠ "")
+          let vs := toks.map fun t =>
+            match parseVal p t with
+            | none => '?'
+            | some v => verdictChar (pvField smallMatcher (definedOf p) c p.hasPresence v)
+          showFC c ++ " pres=" ++ b01 p.hasPresence ++ " | " ++ String.ofList vs
+  | _ => "bad-op"
+
+def stepSchema (body : String) : String :=
+  match body.splitOn " ;; " with
+  | [] | [_] => "bad-op"
+  | objDesc :: specs =>
+    let rec decodeAll (i : Nat) : List String → Option (List Property)
+      | [] => some []
+      | s :: rest =>
+        match decodeSpec i (s.splitOn " " |>.filter (· ≠ "")), decodeAll (i + 1) rest with
+        | some p, some ps => some (p :: ps)
+        | _, _ => none
+    match decodeAll 2 specs with
+    | none => "bad-op"
+    | some props =>
+      let written := props.map writeField
+      if written.any (fun o => !o.isOk) then (if written.any (·.isPanic) then "panic" else "err")
+      else
+        let read := written.map fun o => match o with | .ok a => readField a | .err t => .err t | .panic w => .panic w
+        if read.any (·.isPanic) then "reader-panic"
+        else if read.any (·.isErr) then "reader-error"
+        else
+          let flats := read.filterMap fun o => match o with | .ok p => some (showFlat p) | _ => none
+          let od := if objDesc == "~" then "~" else objDesc
+          String.intercalate " ;; " (("obj name=" ++ hexStr "Foo" ++ " desc=" ++ od) :: flats)
+
+def step (line : String) : String :=
+  let l := line.trimAscii.toString
+  if l.startsWith "rules " then stepRules (l.drop 6).toString
+  else if l.startsWith "schema " then stepSchema (l.drop 7).toString
+  else "bad-op"
+
+partial def loop (h : IO.FS.Stream) (out : IO.FS.Stream) : IO Unit := do
+  let line ← h.getLine
+  if line.isEmpty then return ()
+  out.putStrLn (step line)
+  loop h out
+
+def main : IO Unit := do
+  let out ← IO.getStdout
+  loop (← IO.getStdin) out
+  out.flush
